@@ -63,6 +63,7 @@ pub fn execute(sc: &Scenario, prefix: Vec<u32>, zero_until: usize, tail_seed: u6
     host::reset(reuse);
     crate::machine::reset_counters();
     crate::payload::reset_defaults();
+    crate::v1exec::reset();
     crate::crash::begin(sc.name);
     EMERGENCY.with(|e| {
         let mut v = e.get();
@@ -198,6 +199,11 @@ impl Runner {
         for (k, v) in &out.host.calls {
             *st.calls.entry(k).or_insert(0) += v;
         }
+        if cfg!(miri) {
+            // interpretation is slow: keep the bookkeeping minimal
+            st.events += out.host.log.len() as u64;
+            return self.judge(sc, out, new_trace);
+        }
         for l in &out.labels {
             *st.labels.entry(l).or_insert(0) += 1;
         }
@@ -222,6 +228,10 @@ impl Runner {
             let trace = crate::trace::text(&out.host);
             self.report.sample(json!({"scenario": sc.name, "vector": out.vector, "events": trace.len(), "trace_head": trace.iter().take(45).collect::<Vec<_>>()}));
         }
+        self.judge(sc, out, new_trace)
+    }
+
+    fn judge(&mut self, sc: &Scenario, out: ExecOut, _new_trace: bool) -> bool {
         let mut violated = false;
         for fd in &out.findings {
             if fd.prop == self.prop || fd.prop == "any" {
